@@ -310,8 +310,13 @@ extern "C" void harness_run()
           std::lock_guard<std::mutex> g(w.mx);
           for (auto& c : w.gClose)
             if (c.second == k.sid)
+            {
+              if (sim::verbose())
+                for (auto& ci : sim::net::connections())
+                  sim::notef("conn %d %s(fd %d,%s) -> %s(fd %d,%s)", ci.id, ci.a_addr.c_str(), ci.fd_a, ci.a_closed ? "closed" : "open", ci.b_addr.c_str(), ci.fd_b, ci.b_closed ? "closed" : "open");
               sim::fail("c04-closed-after-success", "connectSync to %s returned sid %llu as connected, then the transport closed it (code %d) although neither side asked for it",
                         tname[k.target], (unsigned long long)k.sid, w.gCloseCode[k.sid]);
+            }
         }
       }
       else
